@@ -55,3 +55,7 @@ func TestBFS(t *testing.T) {
 	bfs(r, "g", 3, time.Now().Add(time.Hour))
 	t.Logf("states %d transitions %d counters %v", r.States, r.Transitions, r.Counters)
 }
+
+func TestCounts(t *testing.T) {
+	t.Logf("alphabet %d, shapes %d, pure calls all %d core %d", len(Alphabet()), len(Shapes()), NumPureCalls(false), NumPureCalls(true))
+}
